@@ -545,8 +545,8 @@ impl Sim for C20 {
   }
   fn runs(&self, tier: Tier) -> u64 {
     match tier {
-      Tier::Quick => 12_000,
-      Tier::Thorough => 400_000,
+      Tier::Quick => 60_000,
+      Tier::Thorough => 1_500_000,
     }
   }
   fn block(&self, tier: Tier) -> u64 {
